@@ -58,6 +58,22 @@ InDomain(g, n, v) == IF g.nodes[n].disc THEN v >= 0 /\ v < g.nodes[n].k ELSE v >
 Clamp(lo, hi, v) == IF v < lo THEN lo ELSE IF v > hi THEN hi ELSE v
 ClampNode(g, n, v) == IF g.nodes[n].disc THEN Clamp(0, g.nodes[n].k - 1, v) ELSE Clamp(g.nodes[n].lo, g.nodes[n].hi, v)
 
+\* linked design-variable nodes (C13): same option index, or same relative position within their bounds
+AbsI(n) == IF n < 0 THEN -n ELSE n
+LinkedDvOK(g, inst) ==
+    \A k \in DOMAIN g.cons : \A i, j \in DOMAIN g.cons[k].dv :
+       LET a == g.cons[k].dv[i]
+           b == g.cons[k].dv[j]
+       IN (HasDvValue(inst, a) /\ HasDvValue(inst, b)) =>
+            IF g.nodes[a].disc THEN DvValue(inst, a) = DvValue(inst, b)
+            ELSE AbsI((DvValue(inst, a) - g.nodes[a].lo) * (g.nodes[b].hi - g.nodes[b].lo)
+                      - (DvValue(inst, b) - g.nodes[b].lo) * (g.nodes[a].hi - g.nodes[a].lo))
+                 <= (g.nodes[a].hi - g.nodes[a].lo) + (g.nodes[b].hi - g.nodes[b].lo)
+\* every linked node that exists gets a value when one of its partners does
+LinkedDvComplete(g, inst) ==
+    \A k \in DOMAIN g.cons : \A i, j \in DOMAIN g.cons[k].dv :
+       (HasDvValue(inst, g.cons[k].dv[i]) /\ g.cons[k].dv[j] \in SeqSet(inst.nodes)) => HasDvValue(inst, g.cons[k].dv[j])
+
 \* ---- the decode contract: set of violated clauses for result r of Decode(x, create) -------------------------
 \* r = [err, rx, ract, hasinst, inst]
 DecodeClauses(g, adm, dvs, x, r) ==
@@ -80,6 +96,8 @@ DecodeClauses(g, adm, dvs, x, r) ==
                          LET ed == EdgesOfChoice(g, k, inst.con) IN
                          IsValidConnSet(g, A, k, SemCap(g, A, k), EdgeMatrix(g, k, ed))
                   THEN {} ELSE {"C01.connection_set_invalid", "C11.decoded_connection_set_invalid"})
+            \cup (IF LinkedDvOK(g, inst) THEN {} ELSE {"C13.linked_design_variables_differ"})
+            \cup (IF LinkedDvComplete(g, inst) THEN {} ELSE {"C13.linked_design_variable_without_value"})
             \cup (IF Len(inst.con) = SumSeq([k \in DOMAIN g.cc |-> Len(EdgesOfChoice(g, k, inst.con))]) THEN {} ELSE {"C11.connection_edge_outside_any_choice"})
             \cup (IF ms = {} \/ Len(r.ract) # Len(dvs) \/ Len(r.rx) # Len(dvs) THEN {}
                   ELSE \* per clause: SOME matching architecture satisfies it (several assignments may denote one graph)
@@ -90,7 +108,7 @@ DecodeClauses(g, adm, dvs, x, r) ==
                              ELSE {"C16.vector_reports_other_value"})
                        \cup (IF \A n \in DvNodeIds(g) \cap SeqSet(inst.nodes) : HasDvValue(inst, n) THEN {} ELSE {"C16.present_node_without_value"})
                        \cup (IF \A p \in DvPairs(inst) : p[1] \in DvNodeIds(g) => InDomain(g, p[1], p[2]) THEN {} ELSE {"C16.value_out_of_domain"})
-                       \cup (IF \A p \in DvPairs(inst) : p[1] \in SeqSet(inst.nodes) THEN {} ELSE {"C16.absent_node_has_value"})
+                       \* (a value stored for an ABSENT linked partner node is not excluded by the property statement: not checked)
                        \cup (IF \A i \in DOMAIN dvs : (dvs[i].kind = "dv" /\ dvs[i].c \notin SeqSet(inst.nodes)) => ~r.ract[i] THEN {} ELSE {"C16.absent_node_active"})
                        \* the value stored is the clamp of the requested value (when the raw vector had the right length)
                        \cup (IF Len(x) = Len(dvs) /\ \E i \in DOMAIN dvs : dvs[i].kind = "dv" /\ r.ract[i] /\ HasDvValue(inst, dvs[i].c)
